@@ -53,7 +53,17 @@ fn neighbourhood(a: &Arena, limited: bool) -> RSSchedParallelNeighborhood {
 
 fn explore(a: &Arena, arena_id: usize, depth: usize, limited: bool, st: &mut Stats, found: &mut Vec<Found>) {
     let nb = neighbourhood(a, limited);
-    let start = a.inits.iter().find(|(n, _)| *n == "min_cost_flow+improve_depots").unwrap().1.clone();
+    let start = match a.inits.iter().find(|(n, _)| *n == "min_cost_flow+improve_depots") {
+        Some(s) => s.1.clone(),
+        None => {
+            // the start solution itself could not be built: candidates cannot be generated at all
+            for (what, site, msg) in &a.init_failures {
+                let short: String = msg.chars().take(80).collect();
+                found.push(Found { arena: arena_id, walk: vec![], clause: format!("panic:initial-state:{}:{}", site_without_line(site), short), detail: format!("{} panicked at {}: {}", what, site, short) });
+            }
+            return;
+        }
+    };
     let mut seen: HashSet<String> = HashSet::new();
     seen.insert(ranked_key(&start));
     let mut frontier: Vec<(ScheduleWithInfo, Vec<String>)> = vec![(ScheduleWithInfo::new(start, SwapInfo::NoSwap, "start".into()), vec![])];
@@ -165,7 +175,15 @@ fn explore(a: &Arena, arena_id: usize, depth: usize, limited: bool, st: &mut Sta
 /// re-walk a recorded walk by candidate text and re-check the last candidate
 fn replay_walk(a: &Arena, arena_id: usize, limited: bool, walk: &[String]) -> Result<Vec<(String, String)>, String> {
     let nb = neighbourhood(a, limited);
-    let start = a.inits.iter().find(|(n, _)| *n == "min_cost_flow+improve_depots").unwrap().1.clone();
+    let start = match a.inits.iter().find(|(n, _)| *n == "min_cost_flow+improve_depots") {
+        Some(s) => s.1.clone(),
+        None => {
+            return Ok(a.init_failures.iter().map(|(what, site, msg)| {
+                let short: String = msg.chars().take(80).collect();
+                (format!("panic:initial-state:{}:{}", site_without_line(site), short), format!("{} panicked at {}: {}", what, site, short))
+            }).collect())
+        }
+    };
     let mut cur = ScheduleWithInfo::new(start, SwapInfo::NoSwap, "start".into());
     for (i, step) in walk.iter().enumerate() {
         let r = std::panic::catch_unwind(std::panic::AssertUnwindSafe(|| nb.neighbors_of(&cur).collect::<Vec<ScheduleWithInfo>>()));
